@@ -187,10 +187,8 @@ impl Model for SenderModel {
                 let st = &mut w.streams[s];
                 let ss = st.ss.take();
                 let rf = st._rf.take();
-                guarded(&mut panics, "drop", move || {
-                    drop(ss);
-                    drop(rf);
-                });
+                safe_drop(&mut panics, "SendStream", ss);
+                safe_drop(&mut panics, "ResponseFuture", rf);
                 st.reset = true;
             }
             Ev::PollCapacity(s) => {
@@ -402,9 +400,12 @@ impl Model for SenderModel {
     }
 
     fn teardown(&self, mut t: T2, w: World) -> Vec<String> {
-        let mut panics = vec![];
-        guarded(&mut panics, "drop handles", move || drop(w));
-        t.panics.extend(panics);
+        let mut panics = std::mem::take(&mut t.panics);
+        for st in w.streams {
+            safe_drop(&mut panics, "SendStream", st.ss);
+            safe_drop(&mut panics, "ResponseFuture", st._rf);
+        }
+        t.panics = panics;
         t.finish()
     }
 
